@@ -431,10 +431,16 @@ impl<'a> GeneratorState<'a> {
                             }
                             _ => return Err(self.compiler_state.syntax_error("Syntax error", pos)),
                         };
+                        // A value that was computed earlier is stored: the flags describe it
+                        // only when nothing else has changed them since (a restored Y, for
+                        // instance)
+                        let stale_flags = matches!(right, ExprType::A(_))
+                            && matches!(self.flags, FlagsState::X | FlagsState::Y);
+                        let high_byte_flags = high_byte || stale_flags;
                         match left {
                             ExprType::Absolute(a, b, c) => {
                                 self.asm(STA, left, pos, high_byte)?;
-                                self.flags = if high_byte {
+                                self.flags = if high_byte_flags {
                                     FlagsState::Unknown
                                 } else {
                                     FlagsState::Absolute(a.clone(), *b, *c)
@@ -442,7 +448,7 @@ impl<'a> GeneratorState<'a> {
                             }
                             ExprType::AbsoluteX(s) => {
                                 self.asm(STA, left, pos, high_byte)?;
-                                self.flags = if high_byte {
+                                self.flags = if high_byte_flags {
                                     FlagsState::Unknown
                                 } else {
                                     FlagsState::AbsoluteX(s.clone())
@@ -450,7 +456,7 @@ impl<'a> GeneratorState<'a> {
                             }
                             ExprType::AbsoluteY(s) => {
                                 self.asm(STA, left, pos, high_byte)?;
-                                self.flags = if high_byte {
+                                self.flags = if high_byte_flags {
                                     FlagsState::Unknown
                                 } else {
                                     FlagsState::AbsoluteY(s.clone())
